@@ -223,7 +223,7 @@ READ_CHECKS = {"dec-err", "dec-value", "dec-consumed", "dec-next", "read-leaves-
                "walk-read", "walk-read-consumed", "walk-read-state", "walk-read-panic"}
 BYTES_CHECKS = {"enc-bytes", "seq-enc-bytes"}
 LEN_CHECKS = {"len", "seq-len", "len-leaves-fresh", "walk-len", "walk-len-state", "walk-len-panic"}
-SKIP_CHECKS = {"skip", "skip-err"}
+SKIP_CHECKS = {"skip", "skip-err", "skip-state"}
 GUARD_CHECKS = {"guard", "seq-guard"}
 
 
